@@ -4,7 +4,8 @@
    (2) the sewer push check of a WWTW is honest: any push up to the room it reports (throughput still free plus room in
        the stormwater tank) is taken in full. *)
 From Coq Require Import QArith Qminmax Lqa List Bool Arith.
-From WSI Require Import Vqip Pow Tank Arc Distrib Kinds Wtw TankLaws ArcLaws QueueLaws.
+From WSI Require Import Vqip Pow Tank Arc Distrib Kinds Wtw TankLaws ArcLaws QueueLaws DistribLaws.
+From WSI Require Run.
 Import ListNotations.
 Open Scope Q_scope.
 
@@ -71,3 +72,77 @@ Proof.
 Qed.
 
 End Wwtw.
+
+(* ---------------- FWTW.treat_water ---------------- *)
+(* The books of the fresh-water works for one treat_water, against ANY neighbours meeting the reply contract: what the
+   service reservoir gains, plus what the out-arcs record as sent to sewers (liquor and solids), plus what is booked as
+   not taken by the sewers, equals what the in-arcs record as abstracted, plus what is booked as made up (the deficit),
+   plus treated water still on the books from before (nothing after a close-out) - volume and every additive pollutant,
+   whatever the process parameters and the temperature.  Hypotheses: the throughput capacity is not negative; the two
+   fluxes the works hand on in this step - the treated water and the waste - are wet (no pollutant mass without water:
+   well-formed process parameters; the treatment step itself conserves under any parameters, w_treat_conserves). *)
+Section FwtwLaws.
+Variable S : Type.
+Variable P : port S.
+Variable K : contract S P.
+Hypothesis wet_replies : forall s v, okS S P K s -> wet v ->
+  forall k, vol (snd (p_push_set P s v)) <= 0 -> get (adds (snd (p_push_set P s v))) k == 0.
+Variable maxiter : nat.
+Notation star_ok := (star_ok S P K).
+Notation sumvin := (sumvin S).
+
+Theorem fw_treat_water_books (f f' : fwtw S) c : conserved c ->
+  star_ok (fw_ins S f) -> star_ok (fw_outs S f) -> 0 <= w_cap (fw_p S f) ->
+  fw_treat_water S P maxiter f = Some f' ->
+  wet (fw_treated S f') -> wet (vsum (fw_liquor S f') (fw_solids S f')) ->
+  (cmp c (t_sto (fw_tank S f')) - cmp c (t_sto (fw_tank S f)))
+  + (sumvin c (fw_outs S f') - sumvin c (fw_outs S f))
+  + (cmp c (fw_unpushed S f') - cmp c (fw_unpushed S f))
+  ==
+  (sumvin c (fw_ins S f') - sumvin c (fw_ins S f))
+  + (cmp c (fw_deficit S f') - cmp c (fw_deficit S f))
+  + cmp c (fw_treated S f).
+Proof.
+  intros Hc Hi Ho Hcap Hrun Hwt Hww. unfold fw_treat_water in Hrun.
+  set (target := Qmin (vol (t_get_excess (fw_tank S f) None)) (w_cap (fw_p S f))) in *.
+  assert (Ht : 0 <= target).
+  { unfold target. apply Q.min_glb; [|exact Hcap]. rewrite t_excess_vol. apply Q.le_max_r. }
+  destruct (pull_distributed S P maxiter None (fw_ins S f) target) as [[[ins' thr] m1]|] eqn:Ep; [|discriminate].
+  destruct (pull_distributed_spec S P K maxiter None _ _ _ _ _ Hi Ht Ep) as (_ & _ & _ & Vp & _).
+  set (deficit := vchange (fw_prev_pulled S f) (Qmax (target - vol thr) 0)) in *.
+  pose proof (w_treat_conserves (fw_p S f) (vsum thr deficit) (fw_treated S f) (fw_liquor S f) c Hc) as HT.
+  destruct (w_treat (fw_p S f) (vsum thr deficit) (fw_treated S f) (fw_liquor S f)) as [[tr lq] so] eqn:Et.
+  destruct (push_distributed S P maxiter (Some [T_SEWER]) (fw_outs S f) (vsum lq so)) as [[[outs' rej] m2]|] eqn:Eq; [|discriminate].
+  destruct (t_push (fw_tank S f) tr false) as [t1 excess] eqn:E1.
+  destruct (t_push t1 excess true) as [t2 r2] eqn:E2.
+  inversion Hrun; subst f'. clear Hrun.
+  cbn [fw_tank fw_outs fw_ins fw_unpushed fw_deficit fw_treated fw_liquor fw_solids] in *.
+  destruct (push_distributed_spec S P K wet_replies maxiter _ _ _ _ _ _ Ho Hww Eq) as (_ & _ & _ & Vo & _).
+  pose proof (t_push_conserves (fw_tank S f) tr c Hc Hwt) as H1. rewrite E1 in H1. cbn [fst snd] in H1.
+  pose proof (proj1 (t_push_forced t1 excess c Hc)) as H2. rewrite E2 in H2. cbn [fst] in H2.
+  rewrite (Vp c Hc), (Vo c Hc). rewrite !cmp_sum by exact Hc. rewrite !cmp_sum in HT by exact Hc.
+  lra.
+Qed.
+
+End FwtwLaws.
+
+(* the hypotheses of fw_treat_water_books are met by a concrete works: one additive pollutant, 60 % of it kept in the
+   effluent, 20 % in the liquor, throughput 8, nothing to abstract from (the whole throughput is made up) *)
+Definition fw_example_params := mkWP (8#1) (1#10) (1#20) [1#5] [3#5] [1#1].
+Definition fw_example : fwtw (Run.nb * Run.nb) :=
+  mkFW _ fw_example_params vzero vzero (mkV (1#2) [1#10] [12#1]) vzero vzero vzero (mkV (4#1) [1#1] [15#1]) vzero
+       (mkT (20#1) (mkV (5#1) [1#2] [10#1]) (mkV (5#1) [1#2] [10#1]) [] vzero 0) [] [].
+Lemma wet_lit_any x a ns : 0 < x -> 0 <= a -> wet (mkV x [a] ns).
+Proof.
+  intros Hx Ha. split.
+  - intros c Hc. destruct c as [|k|k]; [cbn; lra | | destruct Hc]. destruct k as [|[|k]]; cbn; lra.
+  - cbn [vol]. intros H; lra.
+Qed.
+Example fw_example_ok : exists f',
+  fw_treat_water _ Run.nbport 10 fw_example = Some f' /\ 0 <= w_cap (fw_p _ fw_example) /\
+  wet (fw_treated _ f') /\ wet (vsum (fw_liquor _ f') (fw_solids _ f')) /\ 0 < vol (fw_deficit _ f').
+Proof.
+  eexists. split; [vm_compute; reflexivity|]. cbn [fw_treated fw_liquor fw_solids fw_deficit fw_p fw_example w_cap fw_example_params].
+  split; [lra|]. split; [apply wet_lit_any; lra|]. split; [|cbn; lra].
+  vm_compute vsum. apply wet_lit_any; lra.
+Qed.
